@@ -186,12 +186,12 @@ func main() {
 			if !gen.TypeValid(dt, v) {
 				continue
 			}
-			for _, m := range []cql.Mode{cql.Plain, cql.Ptr, cql.Iface} {
+			for _, m := range cql.Modes() {
 				gt, ok := cql.GoType(dt, m)
 				if !ok {
 					continue
 				}
-				for _, a := range cql.Values(dt, 3, m != cql.Plain) {
+				for _, a := range cql.Values(dt, 3, m.Nullable()) {
 					if src, ok := cql.Build(dt, a, gt); ok {
 						atomic.AddInt64(&states, 1)
 						check(dt, v, m.String(), src, gt, a)
